@@ -167,6 +167,7 @@ pub struct Summary {
     pub non_request_sends: u32,
     pub loose: u32,
     pub overlap_with_retransmission: bool,
+    pub lib_validation_disagrees: u32,
 }
 
 // ---------------------------------------------------------------------------------------------
@@ -398,6 +399,12 @@ pub struct Interp<'h> {
     step: usize,
     transport: TransportType,
     last_drop_peer: Option<SocketAddr>,
+    /// steps whose operation must, per the model, change nothing about any transaction
+    /// (refused duplicate send, response for an id that is not outstanding, incoming
+    /// request/indication, send of a non-request)
+    pub noeffect: Vec<usize>,
+    /// steps that injected a response the model expects to be dropped although its id is outstanding
+    pub forged: Vec<usize>,
 }
 
 fn ms_of(origin: Instant, t: Instant) -> u64 {
@@ -432,6 +439,8 @@ impl<'h> Interp<'h> {
             step: 0,
             transport,
             last_drop_peer: None,
+            noeffect: vec![],
+            forged: vec![],
         }
     }
 
@@ -565,6 +574,7 @@ impl<'h> Interp<'h> {
             match (already, r) {
                 (true, Err(StunError::AlreadyInProgress)) => {
                     self.sum.sends_refused += 1;
+                    self.noeffect.push(self.step);
                 }
                 (true, Err(e)) => {
                     return Err(self.d("C05", "c05-duplicate-send", format!("sending a request whose id is outstanding failed with {:?} instead of AlreadyInProgress", e)))
@@ -621,6 +631,7 @@ impl<'h> Interp<'h> {
             }
         } else {
             self.sum.non_request_sends += 1;
+            self.noeffect.push(self.step);
             match r {
                 Ok((data, from, to, transport)) => {
                     let tr = Transmit::new(data.as_slice(), transport, from, to);
@@ -664,7 +675,9 @@ impl<'h> Interp<'h> {
         // self-consistency of WaitUntil: earlier polls repeat it, a poll at t gives an event
         if let Some(t) = pending {
             if !self.model.outstanding.is_empty() {
-                let tag = if self.model.forged_since_wait { "C07" } else { "C06" };
+                // always a timing discrepancy; whether a dropped response caused it is decided by
+                // C07's control run (the same history without the forged responses)
+                let tag = "C06";
                 if now < t {
                     match &ret {
                         StunAgentPollRet::WaitUntil(t2) if ms_of(self.origin, *t2) == t && sub_ms(self.origin, *t2) == t as i128 * 1000 => {
@@ -964,10 +977,24 @@ impl<'h> Interp<'h> {
         let tid = pool_id(id);
         let from = peer(from);
         let bytes = response_bytes(tid, error, auth, fp);
-        let expect_deliver = match self.model.outstanding.get(&tid) {
+        let mut expect_deliver = match self.model.outstanding.get(&tid) {
             None => None,
             Some(tx) => Some(!tx.had_integrity || self.model.remote.as_ref().map(|c| ref_validates(&bytes, &c.key())).unwrap_or(false)),
         };
+        // Whether the response's integrity validates is decided by the reference HMAC; if the library's own
+        // validate_integrity disagrees with it on this very response, the fault lies in the message layer
+        // (C04), not in the agent: the agent is then judged against the library's verdict.
+        if let (Some(tx), Some(c)) = (self.model.outstanding.get(&tid), self.model.remote.as_ref()) {
+            if tx.had_integrity {
+                if let Ok(m) = Message::from_bytes(&bytes) {
+                    let lib = m.validate_integrity(&c.to_lib()).is_ok();
+                    if Some(lib) != expect_deliver {
+                        self.sum.lib_validation_disagrees += 1;
+                        expect_deliver = Some(lib);
+                    }
+                }
+            }
+        }
         // when a drop of a response to an outstanding transaction is expected, pin the timer first
         let mut pinned: Option<u64> = None;
         if expect_deliver == Some(false) {
@@ -981,6 +1008,11 @@ impl<'h> Interp<'h> {
             None => None,
             Some(_) => expect_deliver,
         };
+        match expect_deliver {
+            None => self.noeffect.push(self.step),
+            Some(false) => self.forged.push(self.step),
+            Some(true) => {}
+        }
         let Ok(msg) = Message::from_bytes(&bytes) else {
             return Ok(()); // the parser's business (C02)
         };
@@ -1101,6 +1133,7 @@ impl<'h> Interp<'h> {
         let Ok(msg) = Message::from_bytes(&bytes) else {
             return Ok(());
         };
+        self.noeffect.push(self.step);
         let reply = self.agent.handle_stun(msg, from);
         // handed a request or indication received from `from`
         self.model.validated.insert(from);
@@ -1213,7 +1246,7 @@ impl<'h> Interp<'h> {
     }
 
     /// run the whole history, then drain to quiescence
-    pub fn run(mut self) -> Result<Summary, Disc> {
+    pub fn run(&mut self) -> Result<Summary, Disc> {
         let h = self.h;
         for (i, op) in h.ops.iter().enumerate() {
             self.step = i;
@@ -1264,7 +1297,7 @@ impl<'h> Interp<'h> {
             }
         }
         self.sum.steps = h.ops.len();
-        Ok(self.sum)
+        Ok(self.sum.clone())
     }
 }
 
@@ -1276,6 +1309,29 @@ pub fn process_origin() -> Instant {
 
 pub fn run_history(h: &History) -> Result<Summary, Disc> {
     Interp::new(h, process_origin()).run()
+}
+
+pub struct RunInfo {
+    pub result: Result<Summary, Disc>,
+    pub noeffect: Vec<usize>,
+    pub forged: Vec<usize>,
+}
+
+pub fn run_history_info(h: &History) -> RunInfo {
+    let mut i = Interp::new(h, process_origin());
+    let result = i.run();
+    RunInfo {
+        result,
+        noeffect: std::mem::take(&mut i.noeffect),
+        forged: std::mem::take(&mut i.forged),
+    }
+}
+
+pub fn without_steps(h: &History, steps: &[usize]) -> History {
+    History {
+        tcp: h.tcp,
+        ops: h.ops.iter().enumerate().filter(|(i, _)| !steps.contains(i)).map(|(_, o)| o.clone()).collect(),
+    }
 }
 
 // ---------------------------------------------------------------------------------------------
@@ -1386,12 +1442,35 @@ pub fn history_strategy(p: Profile, max_ops: usize) -> BoxedStrategy<History> {
 
 /// Replies of one execution: one entry per op, each a sorted multiset of reply descriptions with
 /// every instant expressed relative to `origin`.
-pub fn record_run(h: &History, origin: Instant, other_agents: u8, restrict_to: Option<u8>) -> Vec<Vec<String>> {
+/// `skew`: Some((focus id, ms)) passes instants moved by `ms` to the send calls of every
+/// transaction other than `focus` (the poll instants and the focus transaction's calls keep theirs).
+pub fn record_run(h: &History, origin: Instant, other_agents: u8, skew: Option<(u8, u64)>) -> Option<Vec<Vec<String>>> {
+    record_run_clock(h, origin, other_agents, skew, None).map(|(r, _)| r)
+}
+
+/// As `record_run`; also returns the clock (ms after origin at the end of each step). With `forced`
+/// the clock of another execution is imposed instead of being derived from this run's own WaitUntil.
+pub fn record_run_clock(
+    h: &History,
+    origin: Instant,
+    other_agents: u8,
+    skew: Option<(u8, u64)>,
+    forced: Option<&[u64]>,
+) -> Option<(Vec<Vec<String>>, Vec<u64>)> {
+    let restrict_to: Option<u8> = None;
+    let send_at = |id: u8, now: u64| -> Instant {
+        match skew {
+            Some((focus, ms)) if id != focus => origin + Duration::from_millis(now + ms),
+            _ => origin + Duration::from_millis(now),
+        }
+    };
     let transport = if h.tcp { TransportType::Tcp } else { TransportType::Udp };
     let mut agent = StunAgent::builder(transport, local_addr()).build();
     let mut others: Vec<StunAgent> = vec![];
     let mut out = vec![];
     let mut now = 0u64;
+    let mut clock: Vec<u64> = vec![];
+    let mut last_wait: Option<u64> = None;
     let rel = |t: Instant| sub_ms(origin, t);
     for (step, op) in h.ops.iter().enumerate() {
         // unrelated agents are created and operated in between
@@ -1412,7 +1491,7 @@ pub fn record_run(h: &History, origin: Instant, other_agents: u8, restrict_to: O
             Op::Send { id, class, seal, dest, payload } => {
                 if concerns(*id) {
                     with_request(pool_id(*id), *class, *seal, *payload, |b, _| {
-                        let r = agent.send(b, peer(*dest), at(now));
+                        let r = agent.send(b, peer(*dest), send_at(*id, now));
                         replies.push(match r {
                             Ok(t) => format!("id={:x} send ok {} {}->{} {:?}", pool_id(*id), hex_short(t.data()), t.from, t.to, t.transport),
                             Err(e) => format!("id={:x} send err {:?}", pool_id(*id), e),
@@ -1423,7 +1502,7 @@ pub fn record_run(h: &History, origin: Instant, other_agents: u8, restrict_to: O
             Op::SendConfigured { id, seal, dest, payload, rto_ms, retransmits, last_ms } => {
                 if concerns(*id) {
                     with_request(pool_id(*id), 0, *seal, *payload, |b, _| {
-                        let r = agent.send(b, peer(*dest), at(now));
+                        let r = agent.send(b, peer(*dest), send_at(*id, now));
                         replies.push(match r {
                             Ok(t) => format!("id={:x} send ok {} {}->{} {:?}", pool_id(*id), hex_short(t.data()), t.from, t.to, t.transport),
                             Err(e) => format!("id={:x} send err {:?}", pool_id(*id), e),
@@ -1435,21 +1514,34 @@ pub fn record_run(h: &History, origin: Instant, other_agents: u8, restrict_to: O
                 }
             }
             Op::Advance(a) => {
-                now += match a {
-                    Adv::Zero => 0,
-                    Adv::Ms(d) | Adv::ToWakeMinus(d) | Adv::ToWakePlus(d) => *d as u64,
-                    Adv::ToWake => 500,
-                    Adv::Far => 120_000,
+                // wake-up relative advances follow the WaitUntil this very run reported last (ms after
+                // the origin), so that histories walk along the schedules; all executions of a pure
+                // agent report the same instants relative to their origin and thus see the same clock
+                let wake = last_wait.filter(|w| *w > now);
+                now = match a {
+                    Adv::Zero => now,
+                    Adv::Ms(d) => now + *d as u64,
+                    Adv::ToWakeMinus(d) => wake.map(|w| w.saturating_sub(*d as u64 + 1).max(now)).unwrap_or(now + *d as u64),
+                    Adv::ToWake => wake.unwrap_or(now + 500),
+                    Adv::ToWakePlus(d) => wake.map(|w| w + *d as u64).unwrap_or(now + *d as u64),
+                    Adv::Far => now + 120_000,
                 };
+                if let Some(f) = forced {
+                    now = f.get(step).copied().unwrap_or(now);
+                }
             }
             Op::Poll | Op::Drain => {
                 // always a drain so that the state after the step does not depend on map order
+                let mut settled = false;
                 for _ in 0..64 {
                     match agent.poll(at(now)) {
                         StunAgentPollRet::WaitUntil(t) => {
                             if restrict_to.is_none() {
                                 replies.push(format!("wait {}", rel(t)));
                             }
+                            let r = rel(t);
+                            last_wait = if r > 0 && r < 4_000_000_000_000 { Some((r / 1000) as u64) } else { None };
+                            settled = true;
                             break;
                         }
                         StunAgentPollRet::SendData(t) => {
@@ -1460,6 +1552,11 @@ pub fn record_run(h: &History, origin: Instant, other_agents: u8, restrict_to: O
                         StunAgentPollRet::TransactionTimedOut(t) => replies.push(format!("id={:x} timeout", u128::from(t))),
                         StunAgentPollRet::TransactionCancelled(t) => replies.push(format!("id={:x} cancelled", u128::from(t))),
                     }
+                }
+                if !settled {
+                    // an agent that never stops producing events at one instant has a life-cycle
+                    // defect (C05); its replies then depend on map order and say nothing about purity
+                    return None;
                 }
             }
             Op::Response { id, error, auth, from, fp } => {
@@ -1521,6 +1618,7 @@ pub fn record_run(h: &History, origin: Instant, other_agents: u8, restrict_to: O
         }
         replies.sort();
         out.push(replies);
+        clock.push(now);
     }
-    out
+    Some((out, clock))
 }
